@@ -110,6 +110,12 @@ CLAIMED = {
         note="9-directory skeleton, <= 3 rename files and <= 3 defaults files per universe, all orders of all subsets; the command line is run once for a sample of universes (exit status); IDF root is not a project root.",
         design_ref="DESIGN.md section 3, C19",
     ),
+    "C20": dict(
+        technique="TLA+ transcription of the target-constant classification and condition folding (spec/DocFold.tla) over the evaluator of spec/KEval.tla; for each program and docs target the real ConfigTargetVisibility / _minimize_expr / write_docs are run; TLC (spec/MC_Docs.tla) enumerates every assignment of the user-settable options and checks FoldSound on the real folded conditions and on the specification's fold, equality of the two folds, OmitOnlyUnreachable and RefsResolve",
+        text="Model checking: every (original, folded) condition pair taken from the real generator is evaluated by TLC under all assignments of the user options and must have the same truth value; the specification's own fold must coincide with the real one and be sound; every prompted option without an anchor in the generated text must be invisible in all those configurations; every :ref: target must be an anchor of the same text.",
+        note="Conditions over 16 atoms (target symbols, promptless target-derived options, target-gated prompt, force-selected option, user options, undefined name; all six relations incl. between two free options) combined with ! && ||; two targets; 288 assignments per program; env-variable expansion and deprecated-options appendix not exercised.",
+        design_ref="DESIGN.md section 3, C20",
+    ),
 }
 
 REASON_PENDING = "check not built yet in this session (planned in DESIGN.md section 3); not claimed until its TLA+ model and conformance harness exist"
